@@ -12,8 +12,9 @@ import (
 // ZZVerifC20Load: loading a directory of translation files (one or two
 // files, one nested in a sub-directory, plus a non-JSON file that must be
 // ignored) makes every key of every file translatable to its value, under
-// every schedule of the loader with at most P preemptions; values are
-// symbolic bytes (no '%', which Translate would interpret as a verb, no
+// every schedule of the loader with at most P preemptions; the store
+// is empty or already holds another value for a key (as translation or as
+// default); values are symbolic bytes (no '%', which Translate would interpret as a verb, no
 // quote/backslash/control so that the JSON text stays well-formed).
 func ZZVerifC20Load() {
 	nd.Schedule(nd.Param("P", 1))
@@ -34,6 +35,14 @@ func ZZVerifC20Load() {
 	}
 	nd.Assume(fs.WriteFile("tr/readme.txt", []byte("not json {"), filesystem.DefaultUnixFileMode) == nil)
 	i18 := i18mem.NewI18Mem()
+	// a store that already knows the key (as a translation or as a default):
+	// after loading, the key translates to the FILE's value
+	switch nd.Choose("preset", 3) {
+	case 1:
+		i18.Set(map[string]string{"a.b": "old", "keep": "k"})
+	case 2:
+		i18.SetDefault(map[string]string{"a.b": "old", "keep": "k"})
+	}
 	err := Load(fs, "tr/", i18, nil)
 	nd.Assert(err == nil, "C20/load-no-error")
 	got, terr := i18.Translate("a.b")
